@@ -42,6 +42,8 @@ fn ev_cc(t: &mut TraceWriter, s: u32, c1: (i128, i128), r1: i128, c2: (i128, i12
             };
             ev["kind"] = json!(k);
             ev["pts"] = json!(pts.iter().map(pt).collect::<Vec<_>>());
+            // the same points through IntoIterator
+            ev["pts_iter"] = json!(r.into_iter().map(|p| pt(&p)).collect::<Vec<_>>());
         }
         Err(p) => ev["panic"] = json!(p),
     }
@@ -60,6 +62,7 @@ fn ev_cl(t: &mut TraceWriter, s: u32, c: (i128, i128), r: i128, a: (i128, i128),
             };
             ev["kind"] = json!(k);
             ev["pts"] = json!(pts.iter().map(pt).collect::<Vec<_>>());
+            ev["pts_iter"] = json!(r.into_iter().map(|p| pt(&p)).collect::<Vec<_>>());
         }
         Err(p) => ev["panic"] = json!(p),
     }
